@@ -14,7 +14,8 @@
 # thorough adds k = 2 over a reduced menu):
 #   * replace the segment by any (line state, duration) of the menu (durations straddle every threshold by -1..+3,
 #     plus threshold - 75 for the long ones, so that a long timer can expire in the middle of a 2.5 us measurement),
-#   * toggle one of vbus/disconnect/full_speed_only/low_speed_only/bus_busy for that segment or from there on,
+#   * toggle one of vbus/disconnect/full_speed_only/low_speed_only/bus_busy for that segment or from there on, or from
+#     any menu offset into the segment until its end (flag changes at exact cycle offsets around every threshold),
 #   * insert a glitch segment (any line state, any menu duration <= 303 cycles) or a flag pulse before the segment.
 # States are deduplicated on (DUT registers, script position, deviations left, sticky flag mask, monitor).
 #
@@ -26,7 +27,8 @@
 #                        K-J pairs (K run >= 150 cycles, later a J run >= 150 cycles; shorter runs and other states in
 #                        between are ignored = the most generous count), or (b) within 3 cycles of `suspended` when
 #                        that suspend was entered from high speed.
-#   R2 chirp-started-while-restricted   CHIRP rises although full/low_speed_only was asserted for the last 4 cycles.
+#   R2 chirp-started-while-restricted   CHIRP rises although full/low_speed_only has been asserted since (and including)
+#                        the cycle of the bus-reset report that started the handshake (else: for the last 4 cycles).
 #   R3 hs-kept-under-restriction        HSOP shown in 3 consecutive cycles that all had a restriction asserted.
 #   R4 no-fallback-after-chirp-timeout / fallback-not-fs-ls   later than 150 000 + 16 cycles after the end of the device
 #                        chirp the device must be in high-speed operation (legitimately, R1) or show the FS/LS
@@ -46,7 +48,7 @@ from rtlmc.explore import Spec
 
 PROPERTY = "C19"
 TECHNIQUE = "macro-step explicit-state BFS, deviation-bounded around nominal line-state scripts, run-length monitor"
-LEVEL_TEXT = ("The real USBResetSequencer netlist (real 60 MHz constants, events of up to 180 000 cycles run in C) is driven through 16 nominal "
+LEVEL_TEXT = ("The real USBResetSequencer netlist (real 60 MHz constants, events of up to 180 000 cycles run in C) is driven through 19 nominal "
               "line-state scripts (FS/LS reset, suspend, resume, soft disconnect, VBUS loss; HS chirp handshake incl. glitched/late/missing host "
               "chirps; HS suspend/resume; HS reset; speed restriction, VBUS loss and disconnect at HS) and every history that differs from a "
               "script by at most k deviations (k=1 over the full menu of line states x durations straddling each threshold by -1..+3 cycles, "
@@ -155,10 +157,28 @@ SCRIPTS = {
     "hs_susp_restrict_ls_susp": (HSPRE + [S(SE0, HSREV), S(J, 12_010), S(K, 1000), S(SE0, 1000)],
                                  _with([S(SE0, 1000), S(2, 1000), S(2, 180_010), S(1, 1000), S(2, 1000)], ls=1),
                                  ["suspend_hs", "hs_by_resume", "hs_left_on_restriction", "speed_low", "suspend_ls", "resume_stays_fs_ls"]),
+    # --- the same memory must also be cleared on the ways into full/low speed that bypass the fallback state:
+    # (d/e) HS suspend, reset out of suspend while full_speed_only / low_speed_only is asserted (no handshake), then a
+    # suspend at the restricted speed and a resume: the device must stay at full/low speed.  (With low_speed_only the
+    # device still shows FULL speed after that reset, so 01 is its idle state and - being the LS K - also its resume.)
+    "hs_susp_reset_fs_susp": (HSPRE, [S(SE0, HSREV), S(J, 12_010)] +
+                              _with([S(SE0, 160), S(J, 1000), S(J, 180_010), S(K, 1000), S(J, 1000)], fs=1),
+                              ["suspend_hs", "reset_from_suspend", "suspend_fs", "resume_stays_fs_ls"]),
+    "hs_susp_reset_ls_susp": (HSPRE, [S(SE0, HSREV), S(J, 12_010)] +
+                              _with([S(SE0, 160), S(J, 180_010), S(K, 1000), S(SE0, 310), S(2, 1000)], ls=1),
+                              ["suspend_hs", "reset_from_suspend", "suspend_fs", "resume_stays_fs_ls"]),
+    # (f) HS suspend + resume, soft disconnect (re-initialises at full speed), FS suspend, resume
+    "hs_susp_disc_fs_susp": (HSPRE + [S(SE0, HSREV), S(J, 12_010), S(K, 1000), S(SE0, 1000)],
+                             [S(J, 1000, disc=1), S(J, 1000), S(J, 180_010), S(K, 1000), S(J, 1000)],
+                             ["suspend_hs", "hs_by_resume", "nondriving", "suspend_fs", "resume_stays_fs_ls"]),
 }
-ORDER = ["fs_a", "fs_b", "ls", "hs_handshake", "hs_glitchy", "hs_fallback", "hs_late", "hs_suspend", "hs_suspend_reset",
-         "hs_reset", "hs_restrict", "hs_vbus", "hs_disc", "hs_susp_fallback_fs_susp", "hs_susp_restrict_fs_susp",
-         "hs_susp_restrict_ls_susp"]
+# configurations: a name of SCRIPTS, or a group of scripts explored in one configuration (the first action picks one)
+GROUPS = {
+    "stale_hs_suspend_a": ["hs_susp_fallback_fs_susp", "hs_susp_restrict_fs_susp", "hs_susp_restrict_ls_susp"],
+    "stale_hs_suspend_b": ["hs_susp_reset_fs_susp", "hs_susp_reset_ls_susp"],
+}
+ORDER = ["stale_hs_suspend_a", "stale_hs_suspend_b", "hs_suspend", "hs_late", "hs_suspend_reset", "hs_reset", "hs_restrict",   # heaviest first
+         "hs_glitchy", "hs_handshake", "hs_susp_disc_fs_susp", "ls", "fs_a", "hs_fallback", "hs_disc", "fs_b", "hs_vbus"]
 
 
 def configs(tier):
@@ -211,15 +231,21 @@ class ResetSpec(Spec):
 
     def __init__(self, cfg, tier):
         super().__init__(cfg, tier)
-        self.prefix, self.script, self._goals = SCRIPTS[cfg["script"]]
+        names = GROUPS.get(cfg["script"], [cfg["script"]])
+        self.variants = [SCRIPTS[n] for n in names]          # (prefix, body, goals) each
+        self.vnames = names
+        self._goals = sorted({g for v in self.variants for g in v[2]})
         self.k = cfg["k"]
         full = cfg["menu"] == "full"
         self.menu = MENU if full else MENU2
         self.short = SHORT if full else SHORT2
         self.pulse = (1, 3, 151) if full else ()
+        # offsets (cycles into the nominal segment) at which a flag may flip: the whole menu / a small set for k = 2
+        self.split = MENU if full else (151, 301, 12_002, 180_002)
+        self.split_flags = (0, 1, 2, 3, 4) if full else (0, 2, 3)          # k = 2: vbus, full_speed_only, low_speed_only
         self.lines = (SE0, J, K, SE1) if full else (SE0, J, K)
         if tier == "quick":
-            self.time_budget = 1500         # wall-clock guard only: the exploration is finite by construction (3-10 s CPU)
+            self.time_budget = 1500         # wall-clock guard only: the exploration is finite by construction (5-20 s CPU)
             self.n_validate, self.validate_max_cycles = 2, 30_000
         else:
             self.time_budget = 780
@@ -240,7 +266,7 @@ class ResetSpec(Spec):
         return ["clock = 60 MHz (the class' constants): 2.5 us = 150, 5 us = 300, 200 us = 12 000, 2 ms = 120 000, 2.5 ms = 150 000, 3 ms = 180 000 cycles",
                 "input histories are the nominal scripts of the configurations with at most k deviations (k=1 full menu; thorough adds k=2 over a reduced menu); "
                 "a deviation replaces a segment by any (line state, menu duration), toggles vbus/disconnect/full_speed_only/low_speed_only/bus_busy for a segment "
-                "or from there on, or inserts a glitch segment / flag pulse; menu durations straddle every threshold by -1..+3 cycles",
+                "or from there on or from a menu offset inside the segment, or inserts a glitch segment / flag pulse; menu durations straddle every threshold by -1..+3 cycles",
                 "high-speed operation is read as current_speed=HIGH & operating_mode=NORMAL & termination_select=0; the chirp handshake as operating_mode=CHIRP",
                 "K-J pairs are counted in the most generous way (any K run >= 150 cycles followed later by any J run >= 150 cycles; other states in between ignored)",
                 "the HS reset/suspend discrimination is accepted as a sample of the line 200 us after the revert to full speed (USB 2.0 7.1.7.6), "
@@ -255,30 +281,36 @@ class ResetSpec(Spec):
         return list(self._goals)
 
     # ---------------------------------------------------------------- environment
-    # env = (position in script, deviations left, sticky flag mask (5 bits), monitor tuple)
+    # env = (variant, position in its body, deviations left, sticky flag mask (5 bits), monitor tuple)
+    # variant -1: not chosen yet (groups of scripts: the first action picks one and runs its nominal prefix);
+    # variant -2: the oracle fired inside the nominal prefix run by the prologue (single-script configurations)
     def env0(self):
-        return (0, self.k, 0, Mon.INIT)
+        return (-1, 0, self.k, 0, Mon.INIT)
+
+    def _run_nominal(self, cur, mt, segs):
+        for inp, dur in segs:
+            mt = self._run(cur, mt, (inp,), (dur,))
+        return mt
 
     def prologue(self, cur):
-        # the nominal prefix; if the oracle already fires there, the violation is re-raised by the single action offered
-        # in the initial state (position -1), so that it is reported as a violation with a (one-step) path
-        env = self.env0()
+        # vacuity guard independent of exploration caps: run every nominal script once on a fork, so that the cover goals
+        # say whether the *scripts* reach the situations they are about (the BFS reaches their ends only at full depth)
+        for prefix, body, _ in self.variants:
+            try:
+                self._run_nominal(cur.fork(), Mon.INIT, list(prefix) + list(body))
+            except Violation:
+                pass                  # found again, with its path, by the exploration
+        if len(self.variants) > 1:
+            return self.env0()
+        # single script: its nominal prefix runs here; if the oracle already fires there, the violation is re-raised by
+        # the single action offered in the initial state, so that it is reported as a violation with a (one-step) path
         self._prefix_violation = None
         try:
-            for inp, dur in self.prefix:
-                env = self.apply(cur, env, ("nominal", 0, inp, dur, 0))
+            mt = self._run_nominal(cur, Mon.INIT, self.variants[0][0])
         except Violation as v:
-            self._prefix_violation = (v.rule, dict(v.detail or {}, in_nominal_prefix=[self.label(("nominal", 0, i, d, 0)) for i, d in self.prefix]))
-            return (-1, 0, 0, Mon.INIT)
-        # vacuity guard independent of exploration caps: run the nominal body once on a fork so that the cover goals
-        # say whether the *script* reaches the situations it is about (the BFS reaches its end only at full depth)
-        try:
-            f, e = cur.fork(), env
-            for inp, dur in self.script:
-                e = self.apply(f, e, ("nominal", 1, inp, dur, 0))
-        except Violation:
-            pass                      # found again, with its path, by the exploration
-        return env
+            self._prefix_violation = (v.rule, dict(v.detail or {}, in_nominal_prefix=[self.label(("nominal", 0, i, d, 0)) for i, d in self.variants[0][0]]))
+            return (-2, 0, 0, 0, Mon.INIT)
+        return (0, 0, self.k, 0, mt)
 
     @staticmethod
     def _mask(inp, mask):
@@ -289,10 +321,12 @@ class ResetSpec(Spec):
         return tuple(l)
 
     def actions(self, env):
-        pos, left, mask, _ = env
-        if pos < 0: return [("prefix", 0, (0, 0, 0, 0, 0, 0), 0, 0)]
-        if pos >= len(self.script): return []
-        inp, dur = self.script[pos]
+        v, pos, left, mask, _ = env
+        if v == -2: return [("prefix", 0, (0, 0, 0, 0, 0, 0), 0, 0)]
+        if v == -1: return [("variant", 0, (0, 0, 0, 0, 0, 0), i, 0) for i in range(len(self.variants))]
+        script = self.variants[v][1]
+        if pos >= len(script): return []
+        inp, dur = script[pos]
         inp = self._mask(inp, mask)
         acts = [("nominal", 1, inp, dur, mask)]
         if left <= 0: return acts
@@ -304,6 +338,13 @@ class ResetSpec(Spec):
             t = list(inp); t[1 + b] ^= 1; t = tuple(t)
             acts.append(("toggle", 1, t, dur, mask))
             acts.append(("toggle-on", 1, t, dur, mask ^ (1 << b)))
+        if dur > 0:
+            # a flag flips d cycles into the nominal segment (and stays flipped until the segment ends): flag changes at
+            # exact offsets around the thresholds, not only at segment boundaries
+            for b in self.split_flags:
+                t = list(inp); t[1 + b] ^= 1; t = tuple(t)
+                for d in self.split:
+                    if d < dur: acts.append(("split", 1, (inp, t), (d, dur - d), mask))
         for line in self.lines:
             for d in self.short:
                 acts.append(("insert", 0, (line,) + inp[1:], d, mask))
@@ -313,31 +354,49 @@ class ResetSpec(Spec):
                 acts.append(("pulse", 0, t, d, mask))
         return acts
 
-    def label(self, a):
-        kind, adv, inp, dur, mask = a
+    def _seg_label(self, inp, dur):
         fl = ",".join(f"{n}={v}" for n, v in zip(FLAGS, inp[1:]) if v != (1 if n == "vbus_connected" else 0))
         d = f"x{dur}" if dur >= 0 else f"until the device chirp has ended (<= {-dur})"
-        return f"{kind}: {LNAME[inp[0]]} {d}" + (f" [{fl}]" if fl else "")
+        return f"{LNAME[inp[0]]} {d}" + (f" [{fl}]" if fl else "")
+
+    def label(self, a):
+        kind, adv, inp, dur, mask = a
+        if kind == "variant":
+            return f"script {self.vnames[dur]}: nominal prefix " + "; ".join(self._seg_label(i, d) for i, d in self.variants[dur][0])
+        if kind == "split":
+            return "split: " + " then ".join(self._seg_label(i, d) for i, d in zip(inp, dur))
+        return f"{kind}: " + self._seg_label(inp, dur)
+
+    def _run(self, cur, mt, inps, durs):
+        """hold each (inputs, duration) part in turn, feeding every cycle to the monitor; returns the new monitor tuple"""
+        mon = Mon(mt)
+        for inp, dur in zip(inps, durs):
+            kw = dict(line_state=inp[0], vbus_connected=inp[1], disconnect=inp[2], full_speed_only=inp[3],
+                      low_speed_only=inp[4], bus_busy=inp[5])
+            rem = abs(dur)
+            while rem:
+                k, first, last = cur.hold(rem, **kw)
+                rem -= k
+                if last == first:
+                    self.advance(mon, inp, first, k)
+                else:
+                    self.advance(mon, inp, first, k - 1)
+                    was = mon.ctx
+                    self.advance(mon, inp, last, 1)
+                    if dur < 0 and was == 2 and mon.ctx == 3: break   # reactive segment: the device chirp has just ended
+        return mon.tup()
 
     def apply(self, cur, env, a):
-        pos, left, mask, mt = env
+        v, pos, left, mask, mt = env
         kind, adv, inp, dur, mask2 = a
-        if pos < 0: raise Violation(*self._prefix_violation)
-        mon = Mon(mt)
-        kw = dict(line_state=inp[0], vbus_connected=inp[1], disconnect=inp[2], full_speed_only=inp[3],
-                  low_speed_only=inp[4], bus_busy=inp[5])
-        rem = abs(dur)
-        while rem:
-            k, first, last = cur.hold(rem, **kw)
-            rem -= k
-            if last == first:
-                self.advance(mon, inp, first, k)
-            else:
-                self.advance(mon, inp, first, k - 1)
-                was = mon.ctx
-                self.advance(mon, inp, last, 1)
-                if dur < 0 and was == 2 and mon.ctx == 3: break       # reactive segment: the device chirp has just ended
-        return (pos + adv, left - (0 if kind == "nominal" else 1), mask2, mon.tup())
+        if v == -2: raise Violation(*self._prefix_violation)
+        if kind == "variant":
+            return (dur, 0, left, 0, self._run_nominal(cur, mt, self.variants[dur][0]))
+        if kind == "split":
+            mt = self._run(cur, mt, inp, dur)
+        else:
+            mt = self._run(cur, mt, (inp,), (dur,))
+        return (v, pos + adv, left - (0 if kind == "nominal" else 1), mask2, mt)
 
     # ---------------------------------------------------------------- oracle
     def advance(self, mon, inp, o, n):
@@ -393,10 +452,14 @@ class ResetSpec(Spec):
 
         # -- handshake context
         if ch and not m.p_ch:
-            if m.restr_run >= 4:
+            # restricted in the cycle of the bus-reset report that started this handshake (at most 3 cycles ago) and ever
+            # since; without such a report: restricted for the last 4 cycles
+            need = m.rst_gap + 2 if m.rst_gap <= 2 else 4
+            if m.restr_run >= need:
                 raise Violation("chirp-started-while-restricted",
-                                detail(note="operating_mode switched to CHIRP although full_speed_only/low_speed_only "
-                                            "had been asserted for at least the last 4 cycles"))
+                                detail(note="operating_mode switched to CHIRP although full_speed_only/low_speed_only has been "
+                                            "asserted continuously since (and including) the cycle of the bus-reset report",
+                                       restricted_for_cycles=m.restr_run, cycles_since_bus_reset_report=m.rst_gap + 1))
             m.ctx, m.ctx_rst = 1, int(m.rst_gap <= 2)
             m.ck = m.cj = m.pk = m.pairs = m.since_end = 0
             m.pend = 0
